@@ -658,8 +658,42 @@ def r20_scorer_table_fields(ctx, rule):
         else:
             ok = False
             ctx.unk(rule, q, 'the LN level is not read as int(<line>) in a form this rule knows')
+    # the n-gram size: length of the key column, set while the attribute still holds its initial "not set" value
+    init = ctx.fn(SCI)
+    unset = [U(st.value) for st in walk_stmts(init.body) if isinstance(st, ast.Assign) and len(st.targets) == 1 and U(st.targets[0]) == 'self.ngram']
+    sets = [st for st in walk_stmts(fn.body) if isinstance(st, ast.Assign) and len(st.targets) == 1 and U(st.targets[0]) == 'self.ngram']
+    for st in sets:
+        v = st.value
+        if isinstance(v, ast.Call) and call_name(v) == 'len' and len(v.args) == 1:
+            lp_ = next((lp for lp in walk_local(fn) if isinstance(lp, ast.For) and any(st is x for x in walk_stmts(lp.body))), None)
+            keys = {U(x.targets[0].slice) for x in (walk_stmts(lp_.body) if lp_ else []) if isinstance(x, ast.Assign) and len(x.targets) == 1
+                    and isinstance(x.targets[0], ast.Subscript) and U(x.targets[0].value) in ('self.ip', 'self.cp')}
+            if keys and U(v.args[0]) not in keys:
+                ok = False
+                ctx.bad(rule, q, 'n-gram size taken from len(%s), the table key is %s' % (U(v.args[0]), sorted(keys)),
+                        'the scorer slides a window of self.ngram characters over the password and looks every window up in the tables: the size '
+                        'must be the length of the keys stored there', None, st, firm=True)
+            elif not keys:
+                ok = False
+                ctx.unk(rule, q, 'self.ngram is set outside the loop that fills a table')
+        else:
+            ok = False
+            ctx.unk(rule, q, 'self.ngram is set from %s (not the length of a table key)' % U(v)[:50])
+        for t, pol in path_conditions(mod, st):
+            if 'self.ngram' in U(t):
+                if not (pol and isinstance(t, ast.Compare) and len(t.ops) == 1 and isinstance(t.ops[0], ast.Eq) and len(unset) == 1
+                        and {U(t.left), U(t.comparators[0])} == {'self.ngram', unset[0]}):
+                    ok = False
+                    desc = 'self.ngram is set when %s%s, __init__ leaves it at %s' % ('' if pol else 'not ', U(t), unset)
+                    if isinstance(t, ast.Compare) and len(unset) == 1:
+                        ctx.bad(rule, q, desc, 'the size is taken from the first key read: the test must recognise the value __init__ stored, '
+                                'otherwise the size is never set (or reset on every line)', None, st, firm=True)
+                    else:
+                        ctx.unk(rule, q, desc)
+    if sets:
+        n += 1
     if ctx.floor(rule, q, n, 2, 'table stores in the scorer loader') and ok:
-        ctx.ok(rule, q, 'IP and CP map field 1 to int(field 0); only negative levels are refused')
+        ctx.ok(rule, q, 'IP and CP map field 1 to int(field 0); only negative levels are refused; the n-gram size is the length of a table key')
 
 
 def _model_unfiltered(ctx, rule):
